@@ -21,6 +21,7 @@ MUTANTS = [
     ("just-anyround", "forkx", "JustShapeOK <- JustShapeAnyRound", "validator accepts justifications from any round"),
     ("decide-noj", "forkx", "JustShapeOK <- JustShapeDecideNoJ", "DECIDE admitted without justification"),
     ("decide-byprepare", "forkx", "JustShapeOK <- JustShapeDecideByPrepare", "DECIDE admitted with a PREPARE-quorum justification"),
+    ("conv-noprepare", "forkx", "ConvOK <- ConvOKNoPrepare", "CONVERGE filter admits a non-candidate value without a PREPARE-quorum justification"),
     ("no-basecheck", "foreign", "WrongBase <- WrongBaseNever", "votes for a chain with a foreign base are not dropped"),
 ]
 
